@@ -1,6 +1,7 @@
 import EinoV.Basic.JsonUtil
 import EinoV.Model.C09
 import EinoV.Model.C09Opt
+import EinoV.Model.C09Err
 import EinoV.Expected.C09
 
 namespace EinoV.Oracle.C09
@@ -146,8 +147,64 @@ def handleToolList (c : Json) : JE Json := do
     ("alone", J.mkStrs al),
     ("complete", Json.bool complete)]
 
+/-! ### family "errpath": runs that fail (Model/C09Err.lean) -/
+
+def parseSite (s : String) : Err.Site :=
+  match s with
+  | "loop" => .loop
+  | "branch" => .branch
+  | "merge" => .merge
+  | _ => .none
+
+def parseDir (s : String) : Err.Dir :=
+  if s = "site" then .site
+  else if s.startsWith "f" then
+    match (s.drop 1).toNat? with
+    | some l => .fail l
+    | none => .ok
+  else .ok
+
+def parseObj (j : Json) : JE Err.Obj := do
+  let levels ← (← J.arr j "levels").mapM fun l => do
+    pure ({ key := J.strD l "key" "", pre := J.natD l "pre" 0, post := J.natD l "post" 0 } : Err.Level)
+  pure { levels := levels, site := parseSite (J.strD j "site" "none") }
+
+/-- case: {"family":"errpath","objs":[{"levels":[{"key","pre","post"}],"site":"none|loop|branch|merge"}],
+           "calls":[{"obj":idx,"tok":..,"dir":"ok|site|f<l>"}],"reps":n,"sched":[run indices; run = call * reps + wave]}
+    answer: alone[call] = the specification `runSpec` rendered; interleaved[run] = for a failing run
+    what the error object it returned reads after the error-object machine ran `sched` (with the
+    Expected fact `runErrorsFresh`; the initial heap holds the package-level object a shared
+    "exceeds max steps" error would be), for a successful run its value. -/
+def handleErrPath (c : Json) : JE Json := do
+  let objs ← (← J.arr c "objs").mapM parseObj
+  let calls ← (← J.arr c "calls").mapM fun j => do
+    pure (J.natD j "obj" 0, (← J.str j "tok"), parseDir (J.strD j "dir" "ok"))
+  let reps := max 1 (J.natD c "reps" 1)
+  let sched ← J.natList c "sched"
+  let objOf : Nat → Err.Obj := fun k => objs.getD k ⟨[], .none⟩
+  let al := calls.map fun (k, tok, d) => Err.render (Err.runSpec (objOf k) tok d)
+  let runs := calls.flatMap fun x => List.replicate reps x
+  let progs := runs.map fun (k, _, d) => Err.progOf (objOf k) d
+  let st := Err.exec Expected.C09.runErrorsFresh progs sched (Err.St.init Err.sharedHeap)
+  let inter := (List.range runs.length).map fun t =>
+    match runs[t]? with
+    | none => "?"
+    | some (k, tok, d) =>
+      match Err.progOf (objOf k) d with
+      | none => Err.render (Err.runSpec (objOf k) tok d)
+      | some _ =>
+        match Err.read st t with
+        | some cell => Err.renderErr cell.tag cell.cause cell.path
+        | none => "?"
+  let complete := (List.range runs.length).all fun t => Err.done progs st t
+  pure <| Json.mkObj [
+    ("interleaved", J.mkStrs inter),
+    ("alone", J.mkStrs al),
+    ("complete", Json.bool complete)]
+
 def handle (c : Json) : JE Json :=
   match J.strD c "family" "" with
+  | "errpath" => handleErrPath c
   | "optshare" => handleOptShare c
   | "toollist" => handleToolList c
   | _ => handleLayered c
